@@ -375,7 +375,40 @@ def check_refusals(ctx, num=5):
            detail=f"{len(rs)} raise(s) in Segment.__init__")
 
 
+REFUSAL_ERRORS = {"ValueError", "KeyError", "EudoxiaException", "Exception", "BaseException", "LookupError", "TypeError"}
+
+
+def check_refusals_propagate(ctx, num=5):
+    """Error discipline on the loading path: the reader refuses a malformed trace by raising (ValueError / KeyError /
+    EudoxiaException) — lazily, while its generators are consumed.  No handler on the way from the reader to the simulator may
+    swallow such an error: a handler either names only `StopIteration` (the end of the trace) or re-raises."""
+    P = ctx.P
+    scopes = [f for f in (list(P.mod(CSV).funcs.values()) + [f for f in P.mod(WL).funcs.values() if f.qual.startswith("WorkloadTrace")]
+                          + [f for f in P.mod(SIM).funcs.values() if f.name in ("get_workload", "run_simulator")])]
+    n_h = 0
+    for f in scopes:
+        for t in own_nodes(f.node):
+            if not isinstance(t, ast.Try):
+                continue
+            for h in t.handlers:
+                n_h += 1
+                names = []
+                if h.type is None:
+                    names = ["<bare except>"]
+                elif isinstance(h.type, ast.Tuple):
+                    names = [norm.U(e).split(".")[-1] for e in h.type.elts]
+                else:
+                    names = [norm.U(h.type).split(".")[-1]]
+                reraises = bool(h.body) and isinstance(h.body[-1], ast.Raise)
+                swallowed = [x for x in names if x in REFUSAL_ERRORS or x == "<bare except>"]
+                ctx.ob(num, "K12", "no handler on the trace-loading path swallows the error with which a malformed trace is refused "
+                       "(a handler catches only the end of the iteration, or other errors it re-raises)", not swallowed or reraises, f, h,
+                       construct=f"except {', '.join(names)} in {f.qual}", detail=f"catches {names}; re-raises: {reraises}")
+    ctx.count_min("exception handlers on the trace-loading path", n_h, 1)
+
+
 def run(ctx):
+    check_refusals_propagate(ctx, 5)
     dct, wr, pr, rp = check_tables(ctx, 1)
     check_flows(ctx, dct, wr, pr, rp, 2)
     check_none_vs_zero(ctx, 3)
